@@ -59,7 +59,9 @@ impl InkList {
             ink_list.items.insert(item.clone(), *value);
         }
 
-        ink_list.initial_origin_names = other_list.initial_origin_names.clone();
+        // Like the reference runtime's copy constructor: remember the origins the
+        // source list has now, so that a result emptied by `-` still knows them.
+        ink_list.initial_origin_names = RefCell::new(other_list.known_origin_names());
 
         ink_list.origins = other_list.origins.clone();
 
@@ -104,6 +106,19 @@ impl InkList {
 
     pub fn set_initial_origin_names(&self, initial_origin_names: Vec<String>) {
         self.initial_origin_names.replace(initial_origin_names);
+    }
+
+    /// The origin names of the items, or the remembered ones if the list is empty.
+    /// Unlike `get_origin_names`, items without an origin are skipped.
+    fn known_origin_names(&self) -> Vec<String> {
+        if self.items.is_empty() {
+            return self.initial_origin_names.borrow().clone();
+        }
+
+        self.items
+            .keys()
+            .filter_map(|k| k.get_origin_name().cloned())
+            .collect()
     }
 
     pub fn get_origin_names(&self) -> Vec<String> {
@@ -220,7 +235,7 @@ impl InkList {
         }
 
         let mut sub_list = InkList::new();
-        sub_list.set_initial_origin_names(self.initial_origin_names.borrow().clone());
+        sub_list.set_initial_origin_names(self.known_origin_names());
 
         for (k, v) in ordered {
             if *v >= min_value && *v <= max_value {
